@@ -5,6 +5,7 @@ import (
 	"fmt"
 	"strconv"
 	"strings"
+	"sync/atomic"
 
 	"github.com/la5nta/wl2k-go/fbb"
 
@@ -33,6 +34,33 @@ type c18Case struct {
 	Tokens  []string `json:"tokens"`
 	Setter  string   `json:"setter"`
 	TextLen int      `json:"text_len"`
+	// boundary sweep: one two-byte character at byte offset Pos of an otherwise ASCII text of
+	// Size bytes made of CRLF-terminated lines of Line bytes (a text that is already normalised,
+	// so that the offset is the offset any block-wise processing stage sees)
+	Pos  int `json:"pos,omitempty"`
+	Size int `json:"size,omitempty"`
+	Line int `json:"line,omitempty"`
+}
+
+// c18BoundaryText builds the boundary-sweep text; ok is false if Pos falls on a line terminator.
+func c18BoundaryText(c c18Case) (string, bool) {
+	b := make([]byte, 0, c.Size+2)
+	for len(b) < c.Size {
+		col := len(b) % c.Line
+		switch {
+		case col == c.Line-2:
+			b = append(b, '\r')
+		case col == c.Line-1:
+			b = append(b, '\n')
+		default:
+			b = append(b, byte('a'+(len(b)/c.Line+col)%26))
+		}
+	}
+	col := c.Pos % c.Line
+	if col >= c.Line-2 || c.Pos >= len(b) {
+		return "", false
+	}
+	return string(b[:c.Pos]) + "é" + string(b[c.Pos+1:]), true
 }
 
 func stripCRLF(s string) string {
@@ -186,6 +214,12 @@ func C18(args []string) {
 			Case c18Case `json:"case"`
 		}
 		readJSON(p, &f)
+		if f.Case.Size > 0 {
+			text, _ := c18BoundaryText(f.Case)
+			c, d := c18Judge(text, f.Case.Setter)
+			fmt.Printf("boundary sweep pos %d size %d line %d setter %s: class=%q %s\n", f.Case.Pos, f.Case.Size, f.Case.Line, f.Case.Setter, c, d)
+			return
+		}
 		var idx []int
 		for _, n := range f.Case.Tokens {
 			for k, t := range alpha {
@@ -231,7 +265,7 @@ func C18(args []string) {
 			}
 			r.Evals.Add(1)
 			if c, d := c18Judge(text, st); c != "" {
-				r.Violation("C18|"+c, d, c18Case{names, st, len(text)})
+				r.Violation("C18|"+c, d, c18Case{Tokens: names, Setter: st, TextLen: len(text)})
 			}
 		}
 		if len(seqs[i]) > 1 {
@@ -241,11 +275,38 @@ func C18(args []string) {
 			r.Sample(map[string]any{"tokens": names, "text_len": len(text)})
 		}
 	})
+	// boundary sweep: a two-byte character at every offset near a multiple of 512 (thorough: at every
+	// offset) of a 140 KiB normalised text - whatever block size a processing stage works in
+	// (bufio 4096, io.Copy 32 KiB, scanner 64 KiB, ...), the character straddles its boundaries
+	const sweepSize = 140 << 10
+	var sweep []c18Case
+	for _, line := range []int{64, 63} {
+		for p := 0; p < sweepSize; p++ {
+			if m := p % 512; !r.Thorough() && m > 1 && m < 509 {
+				continue
+			}
+			sweep = append(sweep, c18Case{Setter: setters[(p+line)%2], Pos: p, Size: sweepSize, Line: line})
+		}
+	}
+	var swept atomic.Int64
+	core.ParallelFor(len(sweep), func(i int) {
+		text, ok := c18BoundaryText(sweep[i])
+		if !ok {
+			return
+		}
+		r.Evals.Add(1)
+		swept.Add(1)
+		r.Nontrivial.Add(1)
+		if c, d := c18Judge(text, sweep[i].Setter); c != "" {
+			r.Violation("C18|"+c+"|boundary-sweep", d, sweep[i])
+		}
+	})
 	r.Finish(core.Coverage{
-		"states":                        int64(len(seqs)),
+		"boundary_sweep_positions":      swept.Load(),
+		"states":                        int64(len(seqs)) + swept.Load(),
 		"transitions":                   r.Evals.Load(),
 		"traces_validated_against_impl": r.Evals.Load(),
 		"rule":                          "every token sequence up to the length bound over the 18-token line/wrap/charset alphabet (at most max_big 64KiB-class tokens per text) through the real SetBody / SetBodyWithCharset; non-trivial = more than one token",
 		"alphabet":                      len(alpha), "max_tokens": maxTok, "max_big_tokens": maxBig,
-	}, []string{"texts are compositions of the alphabet tokens only; characters are Latin-1 representable (a, é, ÿ, space, CR, LF)"})
+	}, []string{"boundary sweep: one é at every byte offset p with p mod 512 in {509,510,511,0,1} (thorough: every offset) of a 140 KiB text of 64- and 63-byte CRLF lines", "texts are compositions of the alphabet tokens only; characters are Latin-1 representable (a, é, ÿ, space, CR, LF)"})
 }
